@@ -23,6 +23,7 @@ RULE = ("systems and baths as in C01 restricted to Redfield (standard, time depe
         "TD tensor end points; uncoupled aggregates of 1-4 sites with distinct baths for the exact limit. distinct = (class, N, rounded parameters); non-trivial iff "
         "the tensor has elements outside the secular pattern (so the two forms exercise different code) resp. Re g(Tmax) > 1 for the exact limit.")
 RULE = RULE + " Round-6 workloads: one third of the TD end-point cases uses classical real-valued (value-defined) bath correlation functions."
+RULE = RULE + " Round-7 workloads: TD propagations in both forms are also compared after convert_from_RWA, and their is_in_rwa flags must agree."
 ASSUMPTIONS = ["'equals' for TD[-1] vs the time-independent tensor is judged at 1e-9 relative (both are integrals of the same samples)",
                "exact limit: tolerance on the ratio rho(t) / (rho(0) exp(-i w t - g(t))) is exp(1.5 dt max|h| + Taylor) - 1 plus 2e-3 (first-order sampling of the "
                "tensor on the bath grid); compared where |exp(-g)| > 1e-6; no logarithms are compared"]
